@@ -278,6 +278,7 @@ func runC03(p *core.Prog, r *core.Result) {
 		"R3.4 the success record is written only after the body returned without error; nothing is recorded before the body runs",
 		"R3.5 a failing index load falls back to a full load; a failing index write cannot fail a load",
 		"R3.6 the build and watch commands never load from the index; Reload never does",
+		"R3.7 loading a target writes back exactly the record it read: a load (dry run, partial build, crash before the body) cannot erase a pending re-run",
 	}
 	r.NotDecided = []string{"kernel-level atomicity/durability of rename (no fsync: the crash model is process death, not power loss)", "convergence of outputs after recovery", "staleness through a re-executed dependency after a crash (= C01 R1.3, known finding F8)"}
 	m := buildEvalModel(p, r, "R3.0")
@@ -467,6 +468,9 @@ func runC03(p *core.Prog, r *core.Result) {
 
 	// ---- R3.3 / R3.4
 	checkRecordWrites(p, r, m, "R3.3", "R3.4")
+
+	// ---- R3.7 a load cannot erase a pending re-run
+	checkLoadRewritesRead(p, r, "R3.7")
 
 	// ---- R3.5
 	load := need(p, r, "R3.5", "", "Project", "load")
